@@ -1,6 +1,6 @@
 (* C15 proofs, part 5: the model against the specification (coq/Spec/FdsSpec.v), for every history. *)
 From Coq Require Import Permutation.
-From DV Require Import Lib.Base Gen.Tables Gen.FdsTables Fds.Fds Spec.FdsSpec Proofs.FdsBase Proofs.FdsInv Proofs.FdsStep Proofs.FdsHist.
+From DV Require Import Lib.Base Gen.Tables Gen.FdsTables Fds.Fds Spec.FdsSpec Proofs.FdsBase Proofs.FdsInv Proofs.FdsStep Proofs.FdsHist Fds.Write Proofs.FdsWrite.
 Require Import ZifyBool ZifyN ZifyNat.
 Local Open Scope N_scope.
 
@@ -151,6 +151,30 @@ Proof.
       - apply nth_error_Some. rewrite nth_error_map, Hi. discriminate.
       - rewrite !nth_error_map, Hi, Hj. simpl. congruence. }
     subst. congruence.
+Qed.
+
+(* ---------------------------------------------------------------- deliveries on the wire *)
+(* whatever pieces the recipient's socket takes a delivered message in, the recipient finds exactly the
+   message's descriptors in the ancillary data, as many as the header announces *)
+Theorem delivery_on_the_wire cf evs : 0 < fd_timeout cf ->
+  let st := reach cf evs in
+  forall r s d F y hlen blen caps calls,
+    In (r, (s, (d, F))) (g_deliv (st_led st)) -> In y (all_conns st) -> c_id y = r ->
+    0 < hlen + blen -> do_writing (c_neg y) hlen blen F 0 caps = (calls, hlen + blen) ->
+    wire_fds calls = F /\ nlen (wire_fds calls) = w_nfds d.
+Proof.
+  intros Hpos st r s d F y hlen blen caps calls Hin Hy Hid Htot Hw.
+  destruct (order_and_count cf evs Hpos) as [_ Hcnt]. destruct (Hcnt r s d F Hin) as [Hn _].
+  destruct (negotiated_only cf evs Hpos) as [[_ Hneg] Huniq].
+  pose proof (write_split (c_neg y) hlen blen F caps) as W. rewrite Hw in W. destruct W as (A & _ & _).
+  assert (E : 0 <? hlen + blen = true) by (apply N.ltb_lt; exact Htot). rewrite E, andb_true_r in A.
+  assert (HF : wire_fds calls = F).
+  { rewrite A. destruct (c_neg y) eqn:En; auto. destruct F as [|f F']; auto. exfalso.
+    assert (Hd : In (r, f :: F') (map (fun e : N * (N * (wmsg * list fd)) => (fst e, snd (snd (snd e)))) (g_deliv (st_led st)))).
+    { apply in_map_iff. exists (r, (s, (d, f :: F'))). split; auto. }
+    destruct (Hneg r (f :: F') Hd) as (y' & Hy' & Hid' & Hn'); [discriminate|].
+    rewrite (Huniq y y' Hy Hy') in En by congruence. congruence. }
+  split; [exact HF | rewrite HF; exact Hn].
 Qed.
 
 (* ---------------------------------------------------------------- the whole statement (text repeated in Props/C15.v) *)
